@@ -8,6 +8,7 @@ import (
 	"path/filepath"
 	"sort"
 	"strings"
+	"sync/atomic"
 	"time"
 
 	badgerdb "github.com/dgraph-io/badger/v4"
@@ -40,9 +41,14 @@ func openStore(backend, dir string) (store.Store, error) {
 		return badger.OpenWithOptions(badgerdb.DefaultOptions("").WithInMemory(true).WithLoggingLevel(badgerdb.ERROR))
 	case "badger-disk":
 		return badger.OpenWithOptions(badgerdb.DefaultOptions(dir).WithLoggingLevel(badgerdb.ERROR))
+	case "badger-open":
+		// exactly what a user of the package gets: badger.Open(dir) with whatever options the adapter chooses
+		return badger.Open(dir)
 	}
 	return nil, fmt.Errorf("unknown backend %s", backend)
 }
+
+var implDirs int64
 
 func NewImpl(backend, root string) *Impl {
 	im := &Impl{backend: backend, root: root, files: map[string]string{}}
@@ -74,7 +80,9 @@ func (im *Impl) Reset() {
 	}
 	im.stuck = false
 	im.n++
-	im.dir = filepath.Join(im.root, fmt.Sprintf("%s-%d", im.backend, im.n))
+	// unique over the whole process: two handles alive at the same time (a stream's own and a cell's) must never share a
+	// directory - bbolt would wait for the other's file lock forever
+	im.dir = filepath.Join(im.root, fmt.Sprintf("%s-%d", im.backend, atomic.AddInt64(&implDirs, 1)))
 	im.open()
 }
 
